@@ -418,38 +418,146 @@ def hw_first_type(op):
     return None
 
 
-def entity_source(ops, out_widths, wa, wb):
-    """One concurrent wrapper computing every op in `ops` (all sharing the formats of xa / xb).
+SOURCES = ("value", "sig", "ref", "var", "rec", "recref", "arr")
+
+
+def bus_layout(ta, tb):
+    """field positions inside the wider bus used by the `ref` / `recref` operand sources:
+    [top pad 1][xb field][gap][xa field][oa low bits]; offsets depend on the formats so that several
+    offsets occur across the family.  -> dict(oa, ob (None without xb), W)"""
+    (_, A) = ta
+    wa = width(A)
+    oa = 1 + (A[0] + 2 * A[1]) % 3
+    if tb is None:
+        return {"oa": oa, "ob": None, "gap": 0, "W": oa + wa + 1}
+    (_, B) = tb
+    gap = 1 + B[0] % 2
+    ob = oa + wa + gap
+    return {"oa": oa, "ob": ob, "gap": gap, "W": ob + width(B) + 1}
+
+
+def entity_source(ops, out_widths, wa, wb, source="value"):
+    """One wrapper computing every op in `ops` (all sharing the formats of xa / xb).
     out_widths[i] = width of the result's raw bits, or None for a boolean result.
-    Ports: a (BitVector[wa]) and b (BitVector[wb]) when the width is non-zero, outputs o0..on-1."""
+    source = how the operands xa / xb are obtained from the raw input bits:
+      value   std.from_bits[T](port)                     (a std.Value copy, the default qualifier)
+      sig     std.Signal[T] driven from the port in another concurrent block
+      ref     std.from_bits[T](dbus[hi:lo], std.Ref): a view into a field of a wider bus at a non-zero offset
+      var     std.Variable[T] assigned in a clocked std.sequential process (outputs registered)
+      rec     fields of a std.Signal[Rec] (Rec: std.Record with fields x: TA, y: TB)
+      recref  fields of std.from_bits[Rec2](dbus, std.Ref) (record view of the bus, padding fields around x, y)
+      arr     element 1 of a std.Array[TA, 2] (element 0 holds the complemented bits); xb as `value`
+    -> (source text, io) with io = dict(mode="ab"|"bus", clk=bool, oa, ob, W)"""
+    ta = {hw_first_type(op) for op in ops} - {None}
+    tb = {hw_second_type(op) for op in ops} - {None}
+    assert len(ta) <= 1 and len(tb) <= 1
+    ta = next(iter(ta)) if ta else None
+    tb = next(iter(tb)) if tb else None
+    if ta is None:
+        source = "value"  # nothing to vary: the operations do not read a fixed point operand
+    io = {"mode": "ab", "clk": source == "var"}
+    TA = type_expr(*ta) if ta else None
+    TB = type_expr(*tb) if tb else None
     lines = [
+        "from __future__ import annotations",
         "from cohdl import Entity, Port, Bit, BitVector, Signed, Unsigned",
         "from cohdl import std",
         "RS = std.FixedRoundStyle",
         "OS = std.FixedOverflowStyle",
-        "",
-        "class T(Entity):",
     ]
-    if wa:
-        lines.append(f"    a = Port.input(BitVector[{wa}])")
-    if wb:
-        lines.append(f"    b = Port.input(BitVector[{wb}])")
+    if ta:
+        lines.append(f"TA = {TA}")
+    if tb:
+        lines.append(f"TB = {TB}")
+    if source == "rec":
+        lines += ["", "class Rec(std.Record):", "    x: TA"] + (["    y: TB"] if tb else [])
+    if source in ("ref", "recref"):
+        lay = bus_layout(ta, tb)
+        io.update(mode="bus", **lay)
+    if source == "recref":
+        lines += ["", "class Rec2(std.Record):", f"    p0: BitVector[{lay['oa']}]", "    x: TA"]
+        if tb:
+            lines += [f"    p1: BitVector[{lay['gap']}]", "    y: TB"]
+        lines += ["    p2: BitVector[1]"]
+    lines += ["", "class T(Entity):"]
+    if io["clk"]:
+        lines.append("    clk = Port.input(Bit)")
+    if io["mode"] == "bus":
+        lines.append(f"    dbus = Port.input(BitVector[{io['W']}])")
+        if wb and not tb:
+            lines.append(f"    b = Port.input(BitVector[{wb}])")
+    else:
+        if wa:
+            lines.append(f"    a = Port.input(BitVector[{wa}])")
+        if wb:
+            lines.append(f"    b = Port.input(BitVector[{wb}])")
     for i, w in enumerate(out_widths):
         lines.append(f"    o{i} = Port.output({'Bit' if w is None else f'BitVector[{w}]'})")
-    lines += ["", "    def architecture(self):", "        @std.concurrent", "        def logic():"]
-    ta = {hw_first_type(op) for op in ops} - {None}
-    tb = {hw_second_type(op) for op in ops} - {None}
-    assert len(ta) <= 1 and len(tb) <= 1
-    if ta:
-        kind, fmt = next(iter(ta))
-        lines.append(f"            xa = std.from_bits[{type_expr(kind, fmt)}](self.a)")
-    if tb:
-        kind, fmt = next(iter(tb))
-        lines.append(f"            xb = std.from_bits[{type_expr(kind, fmt)}](self.b)")
+    lines += ["", "    def architecture(self):"]
+    ind = "            "
+    pre = []  # statements at the top of the block that computes the operations
+    if source == "value":
+        if ta:
+            pre.append("xa = std.from_bits[TA](self.a)")
+        if tb:
+            pre.append("xb = std.from_bits[TB](self.b)")
+    elif source == "sig":
+        lines.append("        sa = std.Signal[TA]()")
+        if tb:
+            lines.append("        sb = std.Signal[TB]()")
+        lines += ["        @std.concurrent", "        def drive():", ind + "sa.next = std.from_bits[TA](self.a)"]
+        if tb:
+            lines.append(ind + "sb.next = std.from_bits[TB](self.b)")
+        pre.append("xa = sa")
+        if tb:
+            pre.append("xb = sb")
+    elif source == "ref":
+        pre.append(f"xa = std.from_bits[TA](self.dbus[{io['oa'] + wa - 1}:{io['oa']}], std.Ref)")
+        if tb:
+            pre.append(f"xb = std.from_bits[TB](self.dbus[{io['ob'] + width(tb[1]) - 1}:{io['ob']}], std.Ref)")
+    elif source == "var":
+        lines.append("        va = std.Variable[TA]()")
+        if tb:
+            lines.append("        vb = std.Variable[TB]()")
+        pre.append("va.value = std.from_bits[TA](self.a)")
+        if tb:
+            pre.append("vb.value = std.from_bits[TB](self.b)")
+        pre.append("xa = va")
+        if tb:
+            pre.append("xb = vb")
+    elif source == "rec":
+        lines.append("        rs = std.Signal[Rec]()")
+        lines += ["        @std.concurrent", "        def drive():"]
+        if tb:
+            lines.append(ind + "rs.next = Rec(x=std.from_bits[TA](self.a), y=std.from_bits[TB](self.b))")
+        else:
+            lines.append(ind + "rs.next = Rec(x=std.from_bits[TA](self.a))")
+        pre.append("xa = rs.x")
+        if tb:
+            pre.append("xb = rs.y")
+    elif source == "recref":
+        pre.append("rv = std.from_bits[Rec2](self.dbus, std.Ref)")
+        pre.append("xa = rv.x")
+        if tb:
+            pre.append("xb = rv.y")
+    elif source == "arr":
+        lines.append("        arr = std.Array[TA, 2]()")
+        lines += ["        @std.concurrent", "        def drive():",
+                  ind + "arr[0] <<= std.from_bits[TA](~self.a)", ind + "arr[1] <<= std.from_bits[TA](self.a)"]
+        pre.append("xa = arr[1]")
+        if tb:
+            pre.append("xb = std.from_bits[TB](self.b)")
+    else:
+        raise ValueError(source)
+    if io["clk"]:
+        lines += ["        @std.sequential(std.Clock(self.clk))", "        def logic():"]
+    else:
+        lines += ["        @std.concurrent", "        def logic():"]
+    lines += [ind + x for x in pre]
     for i, op in enumerate(ops):
         e, bits = hw_expr(op)
-        lines.append(f"            self.o{i} <<= " + (f"std.to_bits({e})" if bits else e))
-    return "\n".join(lines) + "\n"
+        lines.append(f"{ind}self.o{i} <<= " + (f"std.to_bits({e})" if bits else e))
+    return "\n".join(lines) + "\n", io
 
 
 # ------------------------------------------------------------------------------------------------
